@@ -660,7 +660,7 @@ func boundaryCases() []func(c *core.Ctx) {
 		{"18446744073709551616", true, ""},
 		{"99999999999999999999999", true, ""},
 		{"0", false, "0"},
-		{"007", false, "7"},
+		{"007", false, "7"}, {"010", false, "10"}, {"08", false, "8"}, {"0100", false, "100"}, {"00", false, "0"}, {"0019", false, "19"},
 	} {
 		src := src
 		out = append(out, func(c *core.Ctx) {
